@@ -1,7 +1,7 @@
 (* C09 - Unsatisfiable graphs are refused, satisfiable ones accepted, never mis-generated.  (v1: refusal of cycles) *)
 From Coq Require Import List Arith Lia Bool.
 Import ListNotations.
-Require Import Dfs.
+Require Import Dfs Gen GenU GenSound Suppliers.
 
 Section Cycle.
 Variable succs : nat -> list nat.
@@ -36,3 +36,35 @@ Example C09_self_loop : dfs_all (fun u => match u with 0 => [0] | _ => [] end) 2
 Proof. vm_compute. reflexivity. Qed.
 Example C09_chain_accepted : exists r, dfs_all (fun u => match u with 0 => [1] | 1 => [2] | _ => [] end) 4 (seq 0 3) (fun _ => White) [] = Some r.
 Proof. eexists. vm_compute. reflexivity. Qed.
+
+(* Two different providers supplying one type - a function result, an injected value, an interface bound to a result
+   (it sits in the result's group) - make the first pass fail with the "multiple providers" code, wherever they stand
+   in the declaration and whether or not the type is needed. *)
+Theorem C09_dup_refused : forall ps k k' p p' g g' t,
+  nth_error ps k = Some p -> nth_error ps k' = Some p' -> k <> k' -> Gen.isstruct p = false -> Gen.isstruct p' = false ->
+  In g (Gen.provides p) -> In t g -> In g' (Gen.provides p') -> In t g' -> Gen.pass1 [] 0 ps = Gen.Err 1.
+Proof. exact dup_providers_refused. Qed.
+Print Assumptions C09_dup_refused.
+
+(* an expanded struct field whose type already has a supplier, and two fields of one struct with the same type *)
+Theorem C09_dup_field_refused : forall pm provs st f r, Gen.assoc (snd f) pm <> None -> Gen.add_fields pm provs st (f :: r) = Gen.Err 1.
+Proof. exact dup_field_refused. Qed.
+Print Assumptions C09_dup_field_refused.
+Theorem C09_two_equal_fields_refused : forall pm provs st f f', snd f = snd f' -> Gen.assoc (snd f) pm = None -> Gen.add_fields pm provs st [f; f'] = Gen.Err 1.
+Proof. exact two_equal_fields_refused. Qed.
+Print Assumptions C09_two_equal_fields_refused.
+
+(* a Struct expansion without a source for its struct *)
+Theorem C09_orphan_refused : forall pm provs s st r, hd_error (Gen.requires s) = Some st -> Gen.assoc st pm = None -> Gen.pass2 pm provs (s :: r) = Gen.Err 2.
+Proof. exact orphan_struct_refused. Qed.
+Print Assumptions C09_orphan_refused.
+
+(* acceptance, second half: once the model of NewGraph has accepted a declaration, statement building cannot fail
+   ("no initial pools found" is unreachable) - the injector is emitted. (That NewGraph's model accepts every well-typed,
+   unambiguous, sourced, acyclic declaration additionally needs fuel-sufficiency of the BFS/DFS models; it is checked on
+   every valid declaration of the streams.) *)
+Theorem C09_accept_partial : forall d g, unew_graph d = Gen.OK g -> exists tix, uthreads g = Some tix.
+Proof.
+  intros d g H. destruct (gen_sound d g H) as (st & B & _). unfold uthreads. rewrite B. eauto.
+Qed.
+Print Assumptions C09_accept_partial.
